@@ -855,6 +855,14 @@ class TrajectoryStore:
         if not self.indexable:
             raise RuntimeError('Cannot lookup by flight_id in non-indexable store')
 
+        # An in-memory store has no NetCDF index: look through the
+        # trajectories held in memory instead.
+        if not self.nc_linked:
+            for traj in self._trajectories.values():
+                if traj.flight_id == flight_id:
+                    return traj
+            return None
+
         # Reindex lazily if needed.
         if self.index_stale:
             self._reindex()
@@ -1532,6 +1540,11 @@ class TrajectoryStore:
         # NOTE: Takes about 1.5s on a store with 1 million trajectories.
 
         if not self.indexable or not self.index_stale:
+            return
+
+        # The index lives in the NetCDF files: nothing to do for an in-memory
+        # store (the index is built when the store is saved and closed).
+        if not self.nc_linked:
             return
 
         # Get the NetCDF4 groups for the base field set.
